@@ -55,6 +55,7 @@ CHECKS = {
     "C02": {"crate": "h_store", "bin": "c02", "level": "fault_enumeration", "legs": [
         native(),
         script("strace-ack", "legs_fsync", "c02_leg"),
+        script("strace-ckpt-kill", "legs_c02", "ckpt_kill_leg"),
         asan(tiers=["thorough"], args={"thorough": {"budget-s": 240, "images": 24, "chains": 1, "threads": 8}}),
     ]},
     "C18": {"crate": "h_engines", "bin": "c18", "level": "exploration", "legs": [native()]},
